@@ -202,6 +202,145 @@ def gen_signals(rng):
     out.append("top frameend")
     return "\n".join(out) + "\n"
 
+TRIGGER_ACT = {
+    "bc": lambda g, e, ty: "broadcast %d %d" % (ty, g.newpid()),
+    "res": lambda g, e, ty: g.r.choice(["resmut %d" % ty, "resset %d %d" % (ty, g.r.randrange(3))]),
+    "ins": lambda g, e, ty: "insert %s %d %d" % (e, ty, g.r.randrange(3)),
+    "mut": lambda g, e, ty: "mutate %s %d %d" % (e, ty, g.r.randrange(3)),
+    "rem": lambda g, e, ty: "remove %s %d" % (e, ty),
+    "anyev": lambda g, e, ty: "entevent %s %d %d" % (e, ty, g.newpid()),
+    "eins": lambda g, e, ty: "insert %s %d %d" % (e, ty, g.r.randrange(3)),
+    "emut": lambda g, e, ty: "mutate %s %d %d" % (e, ty, g.r.randrange(3)),
+    "erem": lambda g, e, ty: "remove %s %d" % (e, ty),
+    "eev": lambda g, e, ty: "entevent %s %d %d" % (e, ty, g.newpid()),
+    "dsp": lambda g, e, ty: "despawn %s" % e,
+}
+
+def key_str(kind, e, ty):
+    if kind in ("bc", "res", "ins", "mut", "rem", "anyev"): return "%s:%d" % (kind, ty)
+    if kind == "dsp": return "dsp:%s" % e
+    return "%s:%s:%d" % (kind, e, ty)
+
+def gen_sharedkey(rng):
+    """Several reactors share one or two keys; revoke / trigger / despawn in every order (C01, C06, C07, C15)."""
+    g = G(rng); out = []
+    g.ndefs = rng.randint(1, 3); g.excl = [False] * g.ndefs
+    nE = rng.randint(2, 3)
+    kinds = ["bc", "res", "ins", "mut", "rem", "anyev", "eins", "emut", "erem", "eev", "dsp"]
+    keys = []
+    for _ in range(rng.randint(1, 2)):
+        k = rng.choice(kinds); keys.append((k, "e%d" % rng.randrange(nE), rng.randrange(NTY)))
+    if rng.random() < 0.5:   # a sibling key of the same component type but another kind
+        k0 = keys[0]
+        sib = {"ins": ["mut", "rem"], "mut": ["ins", "rem"], "rem": ["ins", "mut"], "eins": ["emut", "erem", "eev"], "emut": ["eins", "erem"],
+               "erem": ["eins", "emut"], "eev": ["eins", "emut"], "bc": ["anyev"], "anyev": ["bc", "eev"], "res": ["bc"], "dsp": ["erem", "eev"]}[k0[0]]
+        keys.append((rng.choice(sib), k0[1], k0[2]))
+    # definitions: mostly passive readers; sometimes they revoke / trigger from inside the tree
+    for d in range(g.ndefs):
+        runs = []
+        for _ in range(rng.randint(1, 2)):
+            sc = []
+            for _ in range(rng.randint(0, 2)):
+                x = rng.random()
+                k = rng.choice(keys)
+                if x < 0.35: sc.append("revoke t%d" % rng.randrange(4))
+                elif x < 0.7: sc.append(TRIGGER_ACT[k[0]](g, k[1], k[2]))
+                elif x < 0.8: sc.append("despawn s%d" % rng.randrange(4))
+                else: sc.append("run s%d" % rng.randrange(4))
+            runs.append(sc)
+        out.append("def 0 %d" % len(runs))
+        for sc in runs: out.append("run %d" % len(sc)); out += sc
+    setup = ["spawn"] * nE
+    for e in range(nE):
+        for ty in range(NTY):
+            if rng.random() < 0.7: setup.append("insert e%d %d %d" % (e, ty, rng.randrange(3)))
+    nR = rng.randint(2, 4); nT = 0; nS = 0
+    for _ in range(nR):
+        ts = [key_str(*k) for k in keys if rng.random() < 0.8] or [key_str(*keys[0])]
+        if rng.random() < 0.25: ts.append(g.trig())
+        if rng.random() < 0.15: ts.append(ts[0])
+        x = rng.random()
+        d = rng.randrange(g.ndefs)
+        if x < 0.5: setup.append("on r %d %s" % (d, " ".join(ts))); nT += 1; nS += 1
+        elif x < 0.65: setup.append("once %d %s" % (d, " ".join(ts))); nT += 1; nS += 1
+        elif x < 0.8: setup.append("on c %d %s" % (d, " ".join(ts))); nS += 1
+        else: setup.append("on p %d %s" % (d, " ".join(ts))); nS += 1
+        if nS and rng.random() < 0.2:
+            setup.append("with %s s%d %s" % (rng.choice("pr"), rng.randrange(nS), key_str(*rng.choice(keys)))); 
+            if setup[-1].split()[1] == "r": nT += 1
+    out.append("top acts %d" % len(setup)); out += setup
+    for _ in range(rng.randint(3, 8)):
+        sc = []
+        for _ in range(rng.randint(1, 3)):
+            x = rng.random(); k = rng.choice(keys)
+            if x < 0.3 and nT: sc.append("revoke t%d" % rng.randrange(nT))
+            elif x < 0.8: sc.append(TRIGGER_ACT[k[0]](g, k[1], k[2]))
+            elif x < 0.88: sc.append("despawn s%d" % rng.randrange(nS))
+            elif x < 0.94: sc.append("despawn e%d" % rng.randrange(nE))
+            else: sc.append("insert e%d %d %d" % (rng.randrange(nE), rng.randrange(NTY), rng.randrange(3)))
+        y = rng.random()
+        out.append("top acts %d" % len(sc)); out += sc
+        if y < 0.25: out.append("top gc")
+        elif y < 0.4: out.append("top frameend")
+    out.append("top frameend")
+    return "\n".join(out) + "\n"
+
+def gen_removal2(rng):
+    """C08: removals / re-inserts / despawns between polls, entity-scoped and type-wide removal reactors, despawn
+    reactors; causes inside reactors, by commands and by direct world access."""
+    g = G(rng); out = []
+    nE = rng.randint(2, 4)
+    g.ndefs = rng.randint(1, 3)
+    for d in range(g.ndefs):
+        runs = []
+        for _ in range(rng.randint(1, 2)):
+            sc = []
+            for _ in range(rng.randint(0, 2)):
+                x = rng.random(); e = "e%d" % rng.randrange(nE); ty = rng.randrange(NTY)
+                if x < 0.4: sc.append("remove %s %d" % (e, ty))
+                elif x < 0.6: sc.append("despawn %s" % e)
+                elif x < 0.8: sc.append("insert %s %d %d" % (e, ty, rng.randrange(3)))
+                else: sc.append("run s%d" % rng.randrange(3))
+            runs.append(sc)
+        out.append("def 0 %d" % len(runs))
+        for sc in runs: out.append("run %d" % len(sc)); out += sc
+    setup = ["spawn"] * nE
+    for e in range(nE):
+        for ty in range(NTY):
+            if rng.random() < 0.8: setup.append("insert e%d %d %d" % (e, ty, rng.randrange(3)))
+    typewide = rng.random() < 0.5
+    nS = 0
+    for _ in range(rng.randint(1, 4)):
+        ts = []
+        for _ in range(rng.randint(1, 3)):
+            x = rng.random(); e = "e%d" % rng.randrange(nE); ty = rng.randrange(NTY)
+            if x < 0.45: ts.append("erem:%s:%d" % (e, ty))
+            elif x < 0.65: ts.append("dsp:%s" % e)
+            elif x < 0.85 and typewide: ts.append("rem:%d" % ty)
+            elif x < 0.92 and typewide: ts.append(rng.choice(["ins", "mut"]) + ":%d" % ty)
+            else: ts.append("erem:%s:%d" % (e, ty))
+        setup.append("on %s %d %s" % (rng.choice("pcr"), rng.randrange(g.ndefs), " ".join(ts))); nS += 1
+    out.append("top acts %d" % len(setup)); out += setup
+    for _ in range(rng.randint(2, 7)):
+        x = rng.random()
+        if x < 0.6:
+            sc = []
+            for _ in range(rng.randint(1, 4)):
+                y = rng.random(); e = "e%d" % rng.randrange(nE); ty = rng.randrange(NTY)
+                if y < 0.5: sc.append("remove %s %d" % (e, ty))
+                elif y < 0.65: sc.append("despawn %s" % e)
+                elif y < 0.85: sc.append("insert %s %d %d" % (e, ty, rng.randrange(3)))
+                elif y < 0.93: sc.append("run s%d" % rng.randrange(nS))
+                else: sc.append("on %s %d erem:%s:%d" % (rng.choice("pc"), rng.randrange(g.ndefs), e, ty))
+            out.append("top acts %d" % len(sc)); out += sc
+        elif x < 0.7: out.append("top wremove e%d %d" % (rng.randrange(nE), rng.randrange(NTY)))
+        elif x < 0.78: out.append("top wdespawn e%d" % rng.randrange(nE))
+        elif x < 0.88: out.append("top poll")
+        elif x < 0.94: out.append("top frameend")
+        else: out.append("top wsysevent s%d 0 %d" % (rng.randrange(nS), g.newpid()))
+    out.append("top frameend")
+    return "\n".join(out) + "\n"
+
 PROFILES = {
     "mix": lambda rng: gen_mix(rng),
     "big": lambda rng: gen_mix(rng, size=2.0),
@@ -209,6 +348,8 @@ PROFILES = {
     "recursion": lambda rng: gen_mix(rng, size=1.5, body_weights=dict(control=8, trigger=6, register=0.5, life=0.5), weights=dict(control=5, trigger=5)),
     "lifetime": lambda rng: gen_mix(rng, weights=dict(register=4, revoke=4, life=3, trigger=3), body_weights=dict(revoke=2, life=2, register=2)),
     "signals": gen_signals,
+    "sharedkey": gen_sharedkey,
+    "removal2": gen_removal2,
     "access": lambda rng: gen_mix(rng, weights=dict(access=6, trigger=5, register=1.5), body_weights=dict(access=4, trigger=4)),
     "once": lambda rng: gen_mix(rng, weights=dict(register=3, trigger=6, revoke=2, life=1), body_weights=dict(trigger=5, register=1.5, revoke=1)),
     "stale": lambda rng: gen_mix(rng, weights=dict(life=5, trigger=4, control=4, register=2, revoke=2), body_weights=dict(life=4, control=3, trigger=3)),
